@@ -332,8 +332,13 @@ def gen_suite(rng, size="small"):
             vm = rng.choice(common)
             st = "lf" + prod["name"].split(".")[-1]
             po = prod["objs"].setdefault(f"images_{vm}", {"get": "", "get_state": "", "set_state": ""})
-            if po["get"] and not po["get_state"]:
-                pass        # producer already depends on a whole group: keep it simple, do not chain
+            if any(o["get"] and not o["get_state"] for o in prod["objs"].values()):
+                # the producer depends on a whole group (for this or another object) and will be cloned; cloning
+                # makes only the cloned object's state branch specific, so all clones would provide the same
+                # state here and the consumer's clones would be indistinguishable (observed: identically named
+                # nodes).  Outside the model (design.d/C07.md, "same-state producers").
+                if not po["get"] and not po["set_state"]:
+                    del prod["objs"][f"images_{vm}"]
             else:
                 po["set_state"] = st
                 cons["objs"][f"images_{vm}"] = {"get": prod["name"].split(".")[-1], "get_state": st, "set_state": ""}
